@@ -226,6 +226,8 @@ func runC11(c *Ctx, tier string) {
 	runEnumIndexBounded(c, "C11-E1")
 	runStringDecoderCursor(c, "C11-S2")
 	runReaderSanityTests(c, "C11-V2")
+	runValidateDescendsIntoSets(c, "C11-V3")
+	runReadResultsNilTested(c, "C11-R2")
 }
 
 func init() {
